@@ -9,8 +9,11 @@
    Ok or panics at one of two sites: the enum value parser (0x-garbage or >= 2^31) and the
    duplicate-name check of the constant index.  With C14_emitters_panic_site (every Ast) that
    leaves three panic sites for generate on such a list, all in finding F11.
-   PARTIAL: trees outside decl_ok (a field or arm named like a primitive, a declarator in a
-   union arm: the remaining two F11 sites) and the text-to-tree step are covered by K1 only. *)
+   For EVERY text (end of this file: Derive, FrontAll): a tree the parser returns is a derivation
+   of the regenerated grammar, and on every derivation the front end returns Ok or panics at one
+   of four recorded sites (the two above, structure.rs:new, union.rs:new: a field or arm named
+   like a primitive, a declarator in a union arm).  What stays sampled: that pest, the real
+   walker and the real emitters behave like their models (K1, K2 with panic sites). *)
 From XdrProofs Require Import FrontTotal.
 From XdrModel Require Import Walk Check Grammar.
 From XdrProofs Require Import MoreProofs.
